@@ -11,7 +11,7 @@ from dataclasses import dataclass, field
 from typing import List, Optional, Dict, Tuple
 
 SUB = {'ret', 'attr', 'spec', 'prologue', 'epilogue', 'loop', 'after', 'before', 'try', 'breakret', 'orsplit',
-       'shape', 'props', 'member', 'strmatch', 'forwhile', 'tailbind', 'sig', 'swap', 'note', 'selfret', 'tokens', 'vis', 'unwrap_tail', 'implicit', 'breakassign', 'closure', 'foriter', 'bindrecv', 'wrapcall', 'traitspec', 'constspec', 'mutself', 'norules', 'mutparam'}
+       'shape', 'props', 'member', 'strmatch', 'forwhile', 'tailbind', 'sig', 'swap', 'note', 'selfret', 'tokens', 'vis', 'unwrap_tail', 'implicit', 'breakassign', 'closure', 'foriter', 'bindrecv', 'wrapcall', 'traitspec', 'constspec', 'mutself', 'norules', 'mutparam', 'callmon', 'select'}
 
 
 @dataclass
@@ -21,6 +21,7 @@ class Dir:
     text: str = ''
     line: int = 0
     subs: List['Dir'] = field(default_factory=list)
+    optional: bool = False
 
 
 @dataclass
@@ -75,6 +76,8 @@ def parse(path: str, unit: str = '') -> List[FileSpec]:
             continue
         if cur_file is None:
             raise VspecError('%s:%d: directive outside a file section' % (path, i))
+        if d.word.endswith('?'):
+            d.word = d.word[:-1]; d.optional = True
         if d.word in SUB and cur_item is not None:
             cur_item.subs.append(d)
             continue
